@@ -9,7 +9,10 @@
      pyatv/protocols/airplay/auth/__init__.py verify_connection (exception mapping, keys)
      pyatv/protocols/mrp/protocol.py  MrpProtocol.start/_enable_encryption   (keys after verify)
      pyatv/protocols/companion/protocol.py CompanionProtocol.start/_setup_encryption
-   as the code stands (AirPlay mapping as repaired by ce803f2).
+   as the code stands (AirPlay mapping as repaired by ce803f2).  Two facts that differ between
+   the three auth modules and have changed over time (does _get_pairing_data look for an Error
+   item; is the answer to the last message looked at) are parameters [pcfg] of the model; their
+   current values are read off the source by the translator on every run (Gen.cfg).
 
    Cryptography is NOT modelled: X25519, HKDF, ChaCha20-Poly1305 and Ed25519 are Section
    variables (oracles).  TLV8 is the real model of C04 (read_tlv / write_tlv).
